@@ -192,6 +192,22 @@ impl Scenario for S2h {
                     viol.push(Violation { property: "C19", class: "hll/is_empty".into(), step, detail: format!("is_empty() = {} but registers are {}", h.is_empty(), if model_is_empty(&inc) { "all zero" } else { "not all zero" }) });
                     return;
                 }
+                // state transfer: a sketch of another precision that already holds something is overwritten
+                // with clone_from and must then be this sketch, also for what is added later
+                {
+                    let ob = if b > 4 { b - 1 } else { b + 1 };
+                    let mut dst = Hll::with_hash(ob, case.hasher);
+                    dst.add_hashed(0x1234_5678_9abc_def0);
+                    dst.clone_from(&h);
+                    let mut twin = h.clone();
+                    let probe = 0xfeed_f00d_dead_beefu64 ^ (ni as u64);
+                    dst.add_hashed(probe);
+                    twin.add_hashed(probe);
+                    if dst.b() != h.b() || dst.registers() != twin.registers() || dst != twin || dst.count() != twin.count() {
+                        viol.push(v("hll/clone_from/differs-from-source", step, format!("a sketch of precision {} overwritten with clone_from(sketch of precision {}) reports b = {} / differs after one more add", ob, b, dst.b())));
+                        return;
+                    }
+                }
                 // reconstruction
                 let rec = Hll::with_registers_and_hash(b, h.registers().to_vec(), case.hasher);
                 if rec != h || rec.count() != h.count() {
